@@ -71,9 +71,18 @@ def run(ctx):
             return [bool(c.match(e)) for e in loose] + [len(c.filter(loose))]
         return f
 
+    # a vocabulary large enough to bring any bounded name cache inside the library to its capacity
+    flood = bs4.BeautifulSoup('<x></x>', 'html.parser')
+    for i in range(700):
+        flood.x.attrs['zq%d' % i] = ''
+        flood.x.append(flood.new_tag('zt%d' % i))
+    flooder = sv.compile('[nosuch], nosuch')
+
     def fresh():
-        # every call is traced and replayed from the state just after purge(), so that first-use effects are part of it
+        # every call is traced and replayed from the state just after purge() and after a query over 1400 distinct names, so
+        # that first-use effects and evictions from bounded caches are part of every trace
         sv.purge()
+        flooder.select(flood)
 
     calls = [('compile ' + p, mk_raw(p)) for p in POOL] + [('select ' + p, mk_select(p)) for p in compiled] + \
         [('detached ' + p, mk_detached(p)) for p in DETACHED]
@@ -105,9 +114,10 @@ def run(ctx):
     if ctx.tier == 'thorough' and len(combos) > 4000:
         combos = combos[::max(1, len(combos) // 4000)]
     nsat = 0
+    nviol = 0
     for combo in combos:
         trs = [traces[n] for n in combo]
-        s_verdict, schedule, info = sched.find_interference(trs)
+        s_verdict, schedules, info = sched.find_interferences(trs, limit=6 if ctx.tier == 'quick' else 12)
         ctx.z3_queries['issued'] += 1
         ctx.z3_queries[s_verdict if s_verdict in ('sat', 'unsat') else 'unknown'] += 1
         ctx.evaluations += 1
@@ -118,18 +128,29 @@ def run(ctx):
                                else 'inconclusive', info=info)
             continue
         nsat += 1
-        fresh()
-        results = sched.enforce(schedule, [fnmap[n] for n in combo])
-        diverged = [(n, r, solo[n]) for n, r in zip(combo, results)
-                    if (r is None) or r[0] != solo[n][0] or (r[0] == 'ok' and r[1] != solo[n][1]) or
-                    (r[0] == 'exc' and not str(r[1]).startswith(str(solo[n][1])))]
-        ctx.obligation(engine='E3/z3', name=' || '.join(combo), verdict='counterexample' if diverged else 'benign',
-                       schedule=[f'T{t}.{trs[t][i][0]}:{trs[t][i][2]}' for t, i in schedule][:12], info=info)
-        if diverged:
+        bad = None
+        for schedule in schedules:
+            fresh()
+            results = sched.enforce(schedule, [fnmap[n] for n in combo])
+            diverged = [(n, r, solo[n]) for n, r in zip(combo, results)
+                        if (r is None) or r[0] != solo[n][0] or (r[0] == 'ok' and r[1] != solo[n][1]) or
+                        (r[0] == 'exc' and not str(r[1]).startswith(str(solo[n][1])))]
+            ctx.evaluations += 1
+            if diverged:
+                bad = (schedule, diverged)
+                break
+        if len(ctx.obligations) < 600 or bad:
+            ctx.obligation(engine='E3/z3', name=' || '.join(combo), verdict='counterexample' if bad else 'benign',
+                           schedules_enforced=len(schedules), info=info)
+        if bad:
+            schedule, diverged = bad
             n, r, s0 = diverged[0]
             ctx.report(dict(engine='E3', fn='interleaving', args=list(combo), args_repr=[repr(c) for c in combo],
                             schedule=schedule, detail=f'under schedule {[(t, trs[t][i][0], trs[t][i][2]) for t, i in schedule][:8]} '
                             f'thread "{n}" returned {str(r)[:120]} instead of {str(s0)[:120]}'), True)
+            nviol += 1
+            if nviol >= 12:
+                break
     ctx.sample({'thread combinations queried': len(combos), 'satisfiable (a read can observe a foreign write)': nsat})
     # Backstop outside the model (not the deciding step): free-running threads with a tiny switch interval, to notice
     # shared state the discovery cannot see.  Only a divergence from the sequential result is reported.
